@@ -34,6 +34,10 @@ def entries():
         add(f"e_record_{n}", u, f"e_record::<{n},_>(src)", "record_error / report_error / report_farthest_error from an arbitrary state", dict(b, error_positions="0..=N each"))
         add(f"e_no_error_{n}", u, f"e_no_error::<{n},_>(src)", "report_farthest_error without a recorded failure", b)
         add(f"e_choice_{n}", u, f"e_choice::<{n},_>(src)", "ChoiceHelper with three alternatives of symbolic outcome", dict(b, outcomes="every (ok, advance, error offset)^3"))
+    add("h_two_insensitive_literals_3", 7, "h_two_insensitive_literals::<3,3,_>(src)", "two calls of parse_string_literal_insensitive with independent symbolic literals and inputs: the second result is still exact",
+        {"input_bytes": "<=3 each", "literals": "ASCII lower-case/letterless, <=3 bytes each"})
+    add("h_two_whitespace_ranges_3", 6, "h_two_whitespace_ranges::<3,_>(src)", "parse_Whitespace and parse_character_range called on one input, then on another: second results still exact",
+        {"input_bytes": "<=3 each", "range": "every (from,to)"})
     # guard-necessity witnesses: must FAIL
     add("w_char_insensitive_nonascii_4", 7, "m_char_insensitive::<4,_>(src, false)",
         "witness: parse_character_literal_insensitive with an arbitrary (also non-ASCII) literal is NOT sound - the generator's ASCII guard is load-bearing",
